@@ -20,6 +20,13 @@ sys.path.insert(0, HERE)
 import report as reportmod  # noqa: E402
 
 
+BOOT_OTHER = os.path.join(HERE, 'boot_other')
+OTHER_PYTHONS = {v: '/root/.pyenv/versions/%s/bin/python' % full
+                 for v, full in (('3.9', '3.9.18'), ('3.10', '3.10.13'),
+                                 ('3.11', '3.11.7'), ('3.13', '3.13.0'))
+                 if os.path.exists('/root/.pyenv/versions/%s/bin/python' % full)}
+
+
 def base_env(extra=None):
     env = dict(os.environ)
     env['PYTHONPATH'] = BOOT
@@ -179,10 +186,13 @@ def run_cli_many(jobs, workers=None, **kw):
         return list(ex.map(one, jobs))
 
 
-def run_inproc_many(jobs, workers=None, chunk=None, timeout=600):
+def run_inproc_many(jobs, workers=None, chunk=None, timeout=600, python=None):
     """jobs: list of {id, world, args}; run through inproc_worker in
-    parallel worker processes; returns results in job order."""
+    parallel worker processes; returns results in job order.
+    python: another CPython of the sandbox (cross-version clauses)."""
     workers = workers or NCPU
+    py = python or PY
+    benv = (lambda: base_env({'PYTHONPATH': BOOT_OTHER})) if python else base_env
     if not jobs:
         return []
     if chunk is None:
@@ -190,8 +200,8 @@ def run_inproc_many(jobs, workers=None, chunk=None, timeout=600):
     chunks = [jobs[i:i + chunk] for i in range(0, len(jobs), chunk)]
 
     def one(ch):
-        p = subprocess.run([PY, os.path.join(HERE, 'inproc_worker.py')],
-                           input=json.dumps(ch).encode(), env=base_env(),
+        p = subprocess.run([py, os.path.join(HERE, 'inproc_worker.py')],
+                           input=json.dumps(ch).encode(), env=benv(),
                            stdout=subprocess.PIPE, stderr=subprocess.PIPE,
                            timeout=timeout, cwd=scratch_root())
         if p.returncode != 0:
@@ -200,8 +210,8 @@ def run_inproc_many(jobs, workers=None, chunk=None, timeout=600):
             out = []
             for job in ch:
                 q = subprocess.run(
-                    [PY, os.path.join(HERE, 'inproc_worker.py')],
-                    input=json.dumps([job]).encode(), env=base_env(),
+                    [py, os.path.join(HERE, 'inproc_worker.py')],
+                    input=json.dumps([job]).encode(), env=benv(),
                     stdout=subprocess.PIPE, stderr=subprocess.PIPE,
                     timeout=timeout, cwd=scratch_root())
                 if q.returncode == 0:
@@ -225,11 +235,11 @@ def run_inproc_many(jobs, workers=None, chunk=None, timeout=600):
     return results
 
 
-def compute_refs(worlds, workers=None):
+def compute_refs(worlds, workers=None, python=None):
     """Stock-unittest reference events for every test of every world."""
     jobs = [{'id': str(k), 'world': w, 'args': [], 'ref_only': True}
             for k, w in enumerate(worlds)]
-    res = run_inproc_many(jobs, workers=workers)
+    res = run_inproc_many(jobs, workers=workers, python=python)
     return [r['ref'] for r in res]
 
 
